@@ -95,7 +95,7 @@ func (e *ExportOp) Do(ctx ActionContext) (err error) {
 	default:
 		return fmt.Errorf("unknown output format: %s", e.Format)
 	}
-	if d == nil {
+	if d == nil || (e.Format != OutputFormatText && !d.IsContainer()) {
 		d = defVal
 	}
 	fp := e.File.Resolve(ctx)
